@@ -242,7 +242,8 @@ def main():
     ap.add_argument('--out', required=True)
     a = ap.parse_args()
     import concepts
-    assert os.path.realpath(concepts.__file__).startswith(os.path.realpath(os.environ.get('VERIF_REPO', '/repo')))
+    if not os.path.realpath(concepts.__file__).startswith(os.path.realpath(os.environ.get('VERIF_REPO', '/repo'))):
+        raise SystemExit('wrong copy of concepts imported: ' + concepts.__file__)
     stats = {'behaviours': 0, 'events': 0, 'nontrivial': 0, 'samples': [], 'edges': 0, 'states': 0, 'paths': 0,
              'errors_seen': 0}
     f = open(a.out, 'w', encoding='utf-8')
